@@ -245,3 +245,35 @@ def py_matrix(types: list[Any]) -> list[str]:
     return rows
 
 
+
+
+# ---------------------------------------------------------------------------
+# decoding (encoding -> python annotation), the inverse of `encode` up to `==`
+# ---------------------------------------------------------------------------
+
+_NAME_TO_CLASS = {n: c for c, n in CLASS_NAMES.items()}
+_BARE_ALIAS = {"list": typing.List, "dict": typing.Dict, "tuple": typing.Tuple, "Sequence": typing.Sequence}
+
+
+def decode(e: Any) -> Any:
+    if isinstance(e, str):
+        if e == "Any":
+            return Any
+        if e == "NoneType":
+            return NoneType
+        if e == "None":
+            return None
+        if e == "...":
+            return Ellipsis
+        if e == "NoAnnotation":
+            return NoAnnotation
+        return _NAME_TO_CLASS[e]
+    if "u" in e:
+        return Union[tuple(decode(x) for x in e["u"])]
+    if "ann" in e:
+        return Annotated[decode(e["ann"]), "meta"]
+    origin = _NAME_TO_CLASS[e["g"]]
+    args = tuple(decode(x) for x in e["a"])
+    if not args:
+        return _BARE_ALIAS.get(e["g"], origin)
+    return origin[args if len(args) > 1 else args[0]]
